@@ -10,7 +10,8 @@
    dict, here an association list maintained with [aset]) and its [_sp_cache_read] flag.
 
    Decoding of file bytes is NOT modelled: the two decoders signac uses are Section variables
-     [loads_s] = bytes.decode() followed by json.loads(str)   (project._get_statepoint_from_workspace)
+     [loads_s] = bytes.decode() followed by json.loads(str)   (project._get_statepoint_from_workspace;
+                 None = undecodable: it raised a ValueError — JSON or unicode — or a RecursionError)
      [loads_b] = json.loads(bytes)                            (_StatePointDict.load -> _load_from_resource)
    (they differ: the first rejects a BOM and every non-UTF-8 byte with a ValueError, the second sniffs
    UTF-8/16/32 and lets a UnicodeDecodeError escape).  The theorems assume only that both invert the
@@ -31,7 +32,7 @@ Definition spf (i : str) : path := [WS; i; SPF].
 Definition spt (i : str) : path := [WS; i; SPT].
 
 (* outcome of json.loads(bytes) *)
-Inductive dec := DVal (v : json) | DJsonErr | DOtherErr.
+Inductive dec := DVal (v : json) | DJsonErr | DRecErr | DOtherErr.   (* value / JSONDecodeError / RecursionError / other *)
 
 Definition cache := list (str * json).
 Record sess := mkSess { s_cache : cache; s_read : bool }.
@@ -88,7 +89,7 @@ Section MODEL.
         | Some v =>
             (* the JobsCorruptedError raised here is not an OSError/ValueError: it is not re-mapped *)
             if validate && negb (str_eqb (cid v) i) then Err EJobsCorrupted else Ok v
-        | None => bad                                   (* ValueError (JSON or unicode) *)
+        | None => bad                                   (* ValueError (JSON or unicode) or RecursionError *)
         end
     | _ => bad                                          (* OSError from open() *)
     end.
@@ -147,6 +148,7 @@ Section MODEL.
         match loads_b (c_bytes c) with
         | DVal v => validate v
         | DJsonErr => Err EJobsCorrupted
+        | DRecErr => Err EJobsCorrupted              (* nested beyond the recursion limit: caught since 178057f *)
         | DOtherErr => Err EValueError           (* UnicodeDecodeError is not a JSONDecodeError: escapes *)
         end
     end.
